@@ -1,6 +1,7 @@
 package drive
 
 import (
+	"encoding/json"
 	"fmt"
 	"math/big"
 	"sort"
@@ -53,6 +54,10 @@ func (e *lapiEx) call(script string) string {
 	if !r.OK() {
 		return "err"
 	}
+	return e.batchResult(id)
+}
+
+func (e *lapiEx) batchResult(id string) string {
 	b := e.c.ExecIDs(id)
 	if b.Resp == nil || len(b.Resp.TxResponses) != 1 {
 		return "err"
@@ -116,6 +121,29 @@ func (e *lapiEx) Exec(op string) string {
 		}
 		e.nontrivial = true
 		return e.call(strings.Join([]string{w[1], e.user(w[2]).Addr, b, dec(w[4])}, "|"))
+	case "tait":
+		// token.TxAllowedIndustrialBalanceTransfer, signed by the first user
+		if len(w) != 4 || e.c == nil || e.user(w[1]) == nil || e.user(w[2]) == nil {
+			return "bad-op"
+		}
+		type ja struct {
+			Group  string `json:"group,omitempty"`
+			Amount string `json:"amount,omitempty"`
+		}
+		as := []ja{}
+		if w[3] != "-" {
+			for _, it := range strings.Split(w[3], ",") {
+				q := strings.SplitN(it, ":", 2)
+				as = append(as, ja{Group: q[0], Amount: q[1]})
+			}
+		}
+		raw, _ := json.Marshal(as)
+		e.nontrivial = true
+		id, r := e.c.Submit("allowedIndustrialBalanceTransfer", e.c.Signed(e.user(w[1]), "allowedIndustrialBalanceTransfer", e.user(w[2]).Addr, string(raw), "ref"))
+		if !r.OK() {
+			return "err"
+		}
+		return e.batchResult(id)
 	case "dump":
 		if e.c == nil {
 			return "bad-op"
@@ -222,6 +250,14 @@ func genLAPI(c *Cfg, emit func([]string)) {
 				h = append(h, fmt.Sprintf("apim %s %s %s %s", fn, pick(users), pick(users), l), "dump")
 				continue
 			}
+			if c.Rng.Intn(14) == 0 {
+				var as []string
+				for k := 1 + c.Rng.Intn(3); k > 0; k-- {
+					as = append(as, pick([]string{"USD", "EUR", "G1"})+":"+pick([]string{"0", "1", "5", "30", "100", "-1"}))
+				}
+				h = append(h, fmt.Sprintf("tait %s %s %s", pick(users), pick(users), strings.Join(as, ",")), "dump")
+				continue
+			}
 			fn := pick(lapiSingle)
 			// bias towards funding early
 			if s < 4 {
@@ -231,5 +267,5 @@ func genLAPI(c *Cfg, emit func([]string)) {
 		}
 		emit(h)
 	}
-	c.Rule = fmt.Sprintf("(a) 3 histories calling every one of the 27 mutating functions of the balance API once on a funded state; (b) %d histories of 8..32 random calls (24 single-asset and 3 multi-asset functions x 3 users incl. self-moves x token arguments with 0..2 underscores x amounts {-1,0,1,5,30,100,101,250}); every call is one batched transaction; observed: error/ok with the accounting records of the batch event, and after every call every non-zero primary and reverse-index entry of the four balance kinds read from the ledger's composite keys. non-trivial = at least one call; distinct = sha256", n)
+	c.Rule = fmt.Sprintf("(a) 3 histories calling every one of the 27 mutating functions of the balance API once on a funded state; (b) %d histories of 8..32 random calls (24 single-asset and 3 multi-asset functions plus the token's signed allowedIndustrialBalanceTransfer x 3 users incl. self-moves x token arguments with 0..2 underscores x amounts {-1,0,1,5,30,100,101,250}); every call is one batched transaction; observed: error/ok with the accounting records of the batch event, and after every call every non-zero primary and reverse-index entry of the four balance kinds read from the ledger's composite keys. non-trivial = at least one call; distinct = sha256", n)
 }
